@@ -128,6 +128,10 @@ def discarding_calls(mir, kind):
             nm = strip_generics(t.get('callee') or t.get('decl') or '')
             if not DISCARDERS.match(nm):
                 continue
+            if kind == 'V' and nm.split('::')[-1] in ('is_ok', 'is_err', 'is_ok_and', 'is_err_and'):
+                # these take &self: the value lives on and stays under the drop analysis of R06.1, which does not learn the
+                # variant from such a call and therefore still reports a later drop ("may hold a violation")
+                continue
             aty = (t.get('argtys') or [''])[0]
             base = aty[1:].strip() if aty.startswith('&') else aty
             base = base[4:] if base.startswith('mut ') else base
